@@ -332,6 +332,31 @@ def _collapse(text):
     return "".join(out).encode("utf-8")
 
 
+def _column_lines(pwd):
+    """Lines whose only interesting token is non-sensitive as a whole but has a sensitive-looking part
+    (an OID, a longer number containing a listed AS number, a word ending in a keyword); the token
+    straddles column P at every split position for P = 4096 (and 8192 without the secret stage, whose
+    patterns are quadratic in the line length) and in the middle for other 2^k."""
+    if pwd:
+        toks, full, others = ["xpassword tok9q", "xsecret 0 abc"], (4096,), (256, 1024, 8192)
+    else:
+        toks = ["1.3.6.1.4.1.9.9.42", "1.2.3.4.5", "165001", "6500165001", "xpassword tok9q", "my-seattl"]
+        full, others = (4096, 8192), (256, 1024, 16384, 65536)
+    lines = []
+    for P in full + others:
+        for t in toks:
+            shifts = range(1, len(t)) if P in full else (len(t) // 2,)
+            for sh in shifts:
+                n = P - sh
+                pad = ("lorem ipsum dolor " * (n // 18 + 1))[: n - 1] + " "
+                lines.append(pad + t + " end")
+    return lines
+
+
+PLAIN_FILES["tokens-across-columns"] = "".join(l + "\n" for l in _column_lines(False))
+PLAIN_FILES["tokens-across-columns-pwd"] = "".join(l + "\n" for l in _column_lines(True))
+
+
 class PlainFilesPart(Part):
     name = "files_without_sensitive_items"
     desc = "files with no sensitive item (BOM, CR/CRLF/mixed terminators, control and non-ASCII characters) x feature subsets x file entry points: output bytes == input bytes"
@@ -340,7 +365,8 @@ class PlainFilesPart(Part):
         self.tier, self.seed = tier, seed
 
     def cases(self):
-        return [{"F": F} for F in feature_sets() if not F["undo"]]
+        return [{"F": F, "entry": e} for F in feature_sets() if not F["undo"]
+                for e in ("anonymize_file", "anonymize_files", "directory", "main")]
 
     def run(self, case):
         from netconan.anonymize_files import anonymize_files
@@ -349,6 +375,14 @@ class PlainFilesPart(Part):
         res = Res()
         F = case["F"]
         names = [case["file"]] if "file" in case else sorted(PLAIN_FILES)
+        if "file" not in case:
+            # the long-line files: single features and all features; the variant with short lines when the
+            # secret stage is on
+            few = sum(1 for k in ("pwd", "ip", "word", "as") if F[k]) in (1, 4)
+            if not few or F["pwd"]:
+                names.remove("tokens-across-columns")
+            if not few or not F["pwd"]:
+                names.remove("tokens-across-columns-pwd")
         entries = [case["entry"]] if "entry" in case else ["anonymize_file", "anonymize_files", "directory", "main"]
         root = seams.scratch_dir("c12p")
         try:
